@@ -262,6 +262,24 @@ def pow_laws(ck, L, dx, rec, ks):
                 ck.bad("pow-raised", k=str(k), j=str(j), err=repr(e), **w)
                 continue
             ck.eqhash("(u**a)**b==u**(a*b)", rr, direct, True, a=str(k), b=str(j), **w)
+    # exact rational exponents given as Fraction objects (also on float-typed containers): the laws
+    # quantify over Fraction exponents, and int * Fraction stays exact whatever the container's type
+    # Only where the container's own numeric type is Fraction: a float-typed ParserHelper coerces
+    # exponents to float in its constructor (by design), so (u**(1/10))**3 != u**(3/10) there on the
+    # unchanged tree; demanding exactness of float-typed containers would be a false alarm.
+    if dx and L.kind in ("uc", "ph", "unit") and L.nit is F:
+        for a, b in ((F(1, 3), 3), (F(1, 10), 3), (F(2, 7), F(7, 2))):
+            rec.count("pow_laws")
+            try:
+                r1 = (x ** a) ** b
+                r2 = x ** (a * b)
+                pa, pb = x ** a, x ** F(b)
+                prod = pa * (x ** (1 - a))
+            except Exception as e:  # noqa: BLE001
+                ck.bad("pow-raised", k=str(a), j=str(b), err=repr(e), **w)
+                continue
+            ck.eqhash("(u**a)**b==u**(a*b) [Fraction exponents]", r1, r2, True, a=str(a), b=str(b), **w)
+            ck.eqhash("u**a*u**(1-a)==u [Fraction exponents]", prod, x, True, a=str(a), **w)
     s = x / x
     ck.result("u/u", s, {}, **w)
     ck.eqhash("u/u==dimensionless", s, empty, True, **w)
